@@ -191,8 +191,11 @@ def _spec_of_request(cached, req, kinds):
 
 
 def _evicted(a, served_paths, downloaded_paths):
+    """files that were cached (or downloaded by this request) and are gone; `downloaded_paths` may carry, after a None
+    marker, the paths of entries rejected by their validator (removed, not evicted)"""
     Fn, Fo = a.w["fs"], a.old.w["fs"]
-    return [p for p in pattern_paths(a) if (Fo[p].exists or p in downloaded_paths) and not Fn[p].exists]
+    removed = downloaded_paths[downloaded_paths.index(None) + 1:] if None in downloaded_paths else []
+    return [p for p in pattern_paths(a) if (Fo[p].exists or p in downloaded_paths) and not Fn[p].exists and p not in removed]
 
 
 def _lru(a, served_paths, downloaded_paths):
@@ -215,16 +218,37 @@ def _minimal(a, served_paths, downloaded_paths):
     return Or(*[gt(total(a) + Fo[p].size, maxb(a.self.config)) for p in ev])
 
 
-def getitem_contract(label, cached, req, kinds=None, allow=None, parallel=None):
+def getitem_contract(label, cached, req, kinds=None, allow=None, parallel=None, directives=None, validate=True,
+                     pp_raises=False, crash=False, universe=("a", "b", "c")):
+    """cached: letters on disk and registered; req: letters requested in order; kinds: letter -> remote behaviour
+    (ok / notfound / raise_before / raise_partial); directives: letter -> 'validate' | 'postprocess';
+    validate: verdict of the validation function (True / False / 'ioerror'); pp_raises: post-processing raises."""
     kinds = kinds or {}
-    hits, misses, served = _spec_of_request(cached, req, kinds)
-    raws = [U(u) for u in req]
+    directives = directives or {}
+    rejected = [u for u in req if u in cached and directives.get(u) == "validate" and validate is not True]
+    hits = [u for u in req if u in cached and u not in rejected]
+    misses = [u for u in req if u not in hits]
+
+    def outcome(u):
+        k = kinds.get(u, "ok")
+        if k == "ok" and directives.get(u) == "postprocess" and pp_raises:
+            return "pp_raise"
+        return k
+    served = [u for u in req if u in hits or outcome(u) == "ok"]
+    first_fail = next((u for u in misses if outcome(u) != "ok"), None)
+    fail_kind = outcome(first_fail) if first_fail else None
+    # sequential order: the resource is contacted for every miss up to (and including) the first one that raises
+    contacted_if_raises = misses[: misses.index(first_fail) + 1] if first_fail else misses
+    raws = [({"validate": "validate=chk:", "postprocess": "postprocess=pp:"}.get(directives.get(u), "")) + U(u) for u in req]
     served_paths = [PATH(u) for u in served]
-    downloaded = [PATH(u) for u in misses if kinds.get(u, "ok") == "ok"]
-    has_notfound = any(kinds.get(u) == "notfound" for u in misses)
+    downloaded = [PATH(u) for u in misses if outcome(u) == "ok"] + [None] + [PATH(u) for u in rejected if outcome(u) != "ok"]
+    has_notfound = any(outcome(u) == "notfound" for u in misses)
+    expect = lambda a: {u: pp(a.w["remote"][DL(u)].cid) for u in misses if directives.get(u) == "postprocess"}
+    kept = [u for u in cached if u not in rejected]
 
     def params(mk):
-        d = sym_world(mk, cached=cached, kinds=kinds, allow=allow, parallel=parallel)
+        d = sym_world(mk, cached=cached, kinds=kinds, allow=allow, parallel=parallel, validate=validate, pp_raises=pp_raises,
+                      crash=crash, universe=universe)
         d["unparsed_uris"] = mk.st.alloc(list(raws), "request")
         return d
 
@@ -241,8 +265,8 @@ def getitem_contract(label, cached, req, kinds=None, allow=None, parallel=None):
     ens = [
         ("returned_paths", lambda a, r: list(r) == served_paths),
         ("returned_exist_complete", lambda a, r: And(*[And(bool(a.w["fs"][p].exists), bool(a.w["fs"][p].complete)) for p in served_paths])),
-        ("inv_content", lambda a, r: inv_content(a)),
-        ("hits_not_downloaded", lambda a, r: list(a.w["log"]) == [U(u) for u in misses]),
+        ("inv_content", lambda a, r: inv_content(a, expect(a))),
+        ("hits_not_downloaded", lambda a, r: sorted(a.w["log"]) == sorted(DL(u) for u in misses)),   # as a multiset: real threads reorder
         ("inv_structure", lambda a, r: inv_structure(a)),
         ("size_bound", lambda a, r: size_bound(a)),
         ("enlarge_only_if_needed", lambda a, r: And(implies(le(req_total(a), maxb(a.old.self.config)), eq(maxb(a.self.config), maxb(a.old.self.config))),
@@ -252,17 +276,27 @@ def getitem_contract(label, cached, req, kinds=None, allow=None, parallel=None):
         ("served_refreshed", lambda a, r: And(*[gt(recency(a.w["fs"][p]), a.w["clock0"]) for p in served_paths])),
         ("foreign_untouched", lambda a, r: foreign_untouched(a)),
         ("config_persisted", lambda a, r: config_persisted(a)),
-        ("missing_only_if_tolerated", lambda a, r: implies(has_notfound, allow_of(a))),
+        ("normal_exit_only_if_no_failure", lambda a, r: And(fail_kind in (None, "notfound"), implies(has_notfound, allow_of(a)))),
+        ("failed_uri_not_cached", lambda a, r: And(*[And(not a.w["fs"][PATH(u)].exists, NAME(u) not in a.self._entries)
+                                                     for u in misses if outcome(u) != "ok"])),
     ]
 
-    def exc_ok(a):
-        # strict mode and a missing object: the exception may escape; the invariant holds in the state it leaves
-        return And(has_notfound, Not(allow_of(a)), inv_structure(a), inv_content(a), foreign_untouched(a), size_bound(a),
-                   *[And(bool(a.w["fs"][PATH(u)].exists)) for u in cached])
+    def exc_state(a):
+        """what every exceptional exit must leave behind: the invariant; everything cached before (and not rejected by its
+        validator) still cached; the failed URI neither registered nor on disk, so that the next request fetches it afresh;
+        other downloads of the request either registered with the right bytes or absent (inv_structure + inv_content)"""
+        return And(inv_structure(a), inv_content(a, expect(a)), foreign_untouched(a), size_bound(a), config_persisted(a),
+                   *([And(bool(a.w["fs"][PATH(u)].exists), NAME(u) in a.self._entries) for u in kept]
+                     + ([And(not a.w["fs"][PATH(first_fail)].exists, NAME(first_fail) not in a.self._entries)] if first_fail else [])))
+
+    raises = {
+        "_RemoteResourceUriNotFound": lambda a: And(fail_kind == "notfound", Not(allow_of(a)), exc_state(a)),
+        "OSError": lambda a: And(fail_kind in ("raise_before", "raise_partial"), exc_state(a)),
+        "RuntimeError": lambda a: And(fail_kind == "pp_raise", exc_state(a)),
+    }
     return Contract(
         F + "FileCache.__getitem__", label="FileCache.__getitem__." + label,
-        params=params, requires=[("inv", inv_pre), ("inv_size", size_bound)], ensures=ens,
-        raises={"_RemoteResourceUriNotFound": exc_ok},
+        params=params, requires=[("inv", inv_pre), ("inv_size", size_bound)], ensures=ens, raises=raises,
         call=call_without_world, native=S.native,
         options={"native_call": native_method("__getitem__"), "args_ns": S.args_ns, "raise_post_state": True},
     )
@@ -282,6 +316,10 @@ def _getitem_instances():
     for label, cached, req in table:
         multi = len([u for u in req if u not in cached]) > 1
         out.append(getitem_contract(label, cached, req, parallel=None if multi else False, allow=True))
+    # one resource under a comment suffix: its own file, fetched from the comment-free URI, next to the plain one
+    V2 = "a<<v2"
+    out.append(getitem_contract("comment_variant_miss", (A_,), (V2, A_), universe=(A_, V2, B_), parallel=False, allow=True))
+    out.append(getitem_contract("comment_variant_both_cached", (A_, V2), (A_, V2, B_), universe=(A_, V2, B_), parallel=False, allow=True))
     # a missing remote object (tolerant or strict mode: symbolic)
     out.append(getitem_contract("k0_missing", (), (A_,), kinds={"a": "notfound"}, parallel=False))
     out.append(getitem_contract("k1_h1_missing", (B_,), (B_, A_), kinds={"a": "notfound"}, parallel=False))
